@@ -106,6 +106,17 @@ func corrC18(c *corrCtx) {
 			// JPEG
 			jd := randJpegDesc(r)
 			jd.body = nil
+			switch rep % 4 {
+			case 1: // a frame header that defers its line count (lines = 0), or zero samples per line
+				jd.h = 0
+				if jd.w == 0 {
+					jd.w = 640
+				}
+			case 2:
+				jd.w = 0
+			case 3:
+				jd.w, jd.h = 65535, 65535
+			}
 			if withICC {
 				k := 1 + r.intn(3)
 				szs := make([]int, k)
